@@ -49,6 +49,8 @@ def constructor(ctx, tk):
     def m(t):
         if t.k == "cmp":
             op, l, r = t.a
+            if op in ("==", "!=") and l.k == "bin" and r.k == "call":
+                l, r = r, l
             if op in ("==", "!=") and l.k == "sub" and l.a[0].k == "param" and l.a[0].a[0] == ep and is_const(l.a[1], 0) and is_const(r, 0):
                 return ("first_is_zero", op == "==")
             if op in ("==", "!=") and l.k == "call" and call_name(l) == "len" and is_e(l) and r.k == "bin" and r.a[0] == "+" and is_const(r.a[2], 1) \
@@ -80,12 +82,14 @@ def slice_nonempty(ctx, tk):
     fa = ctx.fa(f)
     sinks = [n for n, c in find_calls(fa, lambda c: c.a[0].k == "attr" and c.a[0].a[1] == "_start_to_end")]
 
-    def m(t):
-        if t.k == "cmp" and t.a[0] in (">=", "<", ">", "<="):
-            return {">=": ("empty_range", True), "<": ("empty_range", False), ">": ("strictly_after", True), "<=": ("strictly_after", False)}[t.a[0]]
-        return None
-    check_guard(ctx, "C14.b", f, sinks, Formulas([m]), lambda A: not A["empty_range"], ["empty_range"],
-                "a sub-range is extracted only for start < end (an empty range would produce an empty run)", fa=fa)
+    # orientation from the call: _start_to_end(start, end)
+    s_t = e_t = None
+    for n, c in find_calls(fa, lambda c: c.a[0].k == "attr" and c.a[0].a[1] == "_start_to_end" and len(c.a[1]) == 2):
+        s_t, e_t = c.a[1]
+    from ..guards import order_atoms
+    m, cons, (E, G, L) = order_atoms("start_vs_end", lambda t: t == s_t, lambda t: t == e_t)
+    check_guard(ctx, "C14.b", f, sinks, Formulas([m]), lambda A: A[L], [E, G, L],
+                "a sub-range is extracted only for start < end (an empty range would produce an empty run)", fa=fa, constraints=cons)
 
 
 def encoder(ctx, tk):
